@@ -188,7 +188,12 @@ def gen_document(rng, path: str, *, hostile_ids: bool = False, stem_marker: floa
                 sr.setConstant(False)
                 rr = m.createAssignmentRule()
                 rr.setVariable(srid)
-                rr.setMath(_math(f"{rng.choice(params)} + 0.5"))
+                if rng.random() < 0.5:
+                    rr.setMath(_math(f"{rng.choice(params)} + 0.5"))
+                else:
+                    # a coefficient that follows the state (the species may take part in other reactions with constant coefficients)
+                    rr.setMath(_math(f"0.5 * {rng.choice(species)} + {rng.choice(params)}"))
+                    feats.add("state_dependent_stoichiometry")
                 feats.add("rule_defined_stoichiometry")
             else:
                 sr.setConstant(True)
